@@ -31,8 +31,8 @@ PathRoutes(loc, t) ==
   LET y == IF t.localas # 0 THEN t.localas ELSE 777
       shapes == PlainShapes(300, t.as, y) \cup (IF loc.confed THEN ConfedShapes(300) ELSE {})
                 \cup {LongSeq(300)}
-  IN {Route(Peer(s, loc), NhForm(1), TRUE, p, 0, 200, 50, "none", <<>>, <<"T">>, <<7>>) :
-        s \in PathSources(loc), p \in shapes}
+  IN {Route(Peer(s, loc), NhForm(k), TRUE, p, 0, 200, 50, "none", <<>>, <<"T">>, <<7>>) :
+        s \in PathSources(loc), p \in shapes, k \in (IF Slice = "quick" THEN {1} ELSE {1, 2})}
 
 PathPool == UNION {{Exp(LPlain, t, r) : r \in PathRoutes(LPlain, t)} : t \in PathTargets(LPlain)}
             \cup UNION {{Exp(LConfed, t, r) : r \in PathRoutes(LConfed, t)} : t \in PathTargets(LConfed)}
@@ -145,9 +145,15 @@ Inb(loc, p, steps) ==
   [mode |-> "inbound", local |-> loc, peer |-> p, steps |-> steps,
    kf |-> \E i \in DOMAIN steps : OnlyCluster(steps[i].route, p, loc)]
 
+(* first announcements of two-step histories: a clean route; thorough tier: also every AS_PATH
+   shape (accepted or rejected for the own AS) without RR attributes *)
+Firsts(p, loc) ==
+  {CleanRoute(p, loc, 1)}
+  \cup (IF Slice = "quick" THEN {} ELSE {r \in InRoutes(p, loc, 1) : r.origid = "none" /\ r.clist = <<>>})
+
 InboundPool ==
   UNION {UNION {{Inb(loc, p, <<Step(r)>>) : r \in InRoutes(p, loc, 1)}
-                \cup {Inb(loc, p, <<Step(CleanRoute(p, loc, 1)), Step(r)>>) : r \in InRoutes(p, loc, 2)}
+                \cup UNION {{Inb(loc, p, <<Step(f), Step(r)>>) : r \in InRoutes(p, loc, 2)} : f \in Firsts(p, loc)}
                 : p \in InPeers(loc)} : loc \in {LPlain, LPlainX, LConfed}}
 
 ---------------------------------------------------------------------------
